@@ -220,6 +220,8 @@ func registerExterns(w *World) {
 		e := ex.fresh("atoierr", "Int")
 		ok, val := atoiTerms(s)
 		st.assume(eq(eq(e, "0"), ok))
+		// a fact of str.to_int the solvers do not find quickly by themselves: at most 18 digits stay below 10^18 (< 2^63)
+		st.assume(atoiDigitsLemma(s))
 		st.assume("(>= " + e + " 0)")
 		st.assume(implies(ok, eq(v, val)))
 		st.assume("(<= (- 9223372036854775808) " + v + ")")
@@ -724,6 +726,14 @@ func registerExterns(w *World) {
 }
 
 // atoiTerms: (success condition, value) of strconv.Atoi on term s.
+// atoiDigitsLemma: a valid statement about str.to_int (it is -1 on non-digit strings and below 10^len on digit strings),
+// instantiated for the digit part of s.
+func atoiDigitsLemma(s string) string {
+	signed := `(or (str.prefixof "-" ` + s + `) (str.prefixof "+" ` + s + `))`
+	digits := ite(signed, "(str.substr "+s+" 1 (- (str.len "+s+") 1))", s)
+	return implies("(<= (str.len "+digits+") 18)", "(< (str.to_int "+digits+") 1000000000000000000)")
+}
+
 func atoiTerms(s string) (string, string) {
 	syn := "(str.in_re " + s + " " + reAtoi + ")"
 	neg := `(str.prefixof "-" ` + s + `)`
